@@ -6,6 +6,8 @@ pub mod c02;
 pub mod c08;
 pub mod c10;
 pub mod c11;
+pub mod c18;
+pub mod c19;
 
 pub struct PropDef {
     pub id: &'static str,
@@ -21,5 +23,7 @@ pub fn registry() -> Vec<PropDef> {
         PropDef { id: "C08", run: c08::run, replay: c08::replay },
         PropDef { id: "C10", run: c10::run, replay: c10::replay },
         PropDef { id: "C11", run: c11::run, replay: c11::replay },
+        PropDef { id: "C18", run: c18::run, replay: c18::replay },
+        PropDef { id: "C19", run: c19::run, replay: c19::replay },
     ]
 }
